@@ -199,7 +199,7 @@ func (pl *hdPool) all() []interface{} {
 				return
 			}
 			probe = "ok"
-			probeStr = str(c.String())
+			probeStr = str(retainStr("ExtendedKey", "String", c.String()))
 		})
 		if probeStr == nil {
 			probeStr = str(probe)
@@ -223,7 +223,7 @@ func opHD(h *HState, a Event) Event {
 		op = "Parse"
 		a = with(a, "op", "Parse", "s", []int{})
 		if k, ok := pl.keys[gInt(a, "src")]; ok {
-			a["s"] = str(k.String())
+			a["s"] = str(retainStr("ExtendedKey", "String", k.String()))
 		}
 	}
 	// calls on ids that are not live (already zeroed / never created) are skipped
@@ -491,7 +491,7 @@ func opWifMutate(_ *HState, a Event) Event {
 		}
 		e["str1"] = str(s1)
 		w.CompressPubKey = !comp
-		e["str2"] = str(w.String())
+		e["str2"] = str(retainStr("WIF", "String", w.String()))
 		e["pub2"] = ints(w.SerializePubKey())
 	})
 	b := ecBase(key)
@@ -512,7 +512,7 @@ func opWif(_ *HState, a Event) Event {
 			e["err"] = err.Error()
 			return
 		}
-		e["str"] = str(w.String())
+		e["str"] = str(retainStr("WIF", "String", w.String()))
 		e["pub"] = ints(w.SerializePubKey())
 		var fn []bool
 		for _, n := range nets {
